@@ -236,10 +236,13 @@ struct Value {
             s << int64;
             break;
         case T_DATA:
-            if (data.size() < 5) {
-                // we need to push this as a number
-                int64_t i = int_value();
-                s << i;
+            // push exactly these bytes, using the minimal push form for them
+            if (data.size() == 1 && data[0] >= 1 && data[0] <= 16) {
+                s << (opcodetype)(OP_1 + data[0] - 1);
+                break;
+            }
+            if (data.size() == 1 && data[0] == 0x81) {
+                s << OP_1NEGATE;
                 break;
             }
             // fall-through
